@@ -2,12 +2,13 @@
 # setup_cmd: build everything from files on disk, offline.
 set -e
 cd "$(dirname "$0")"
+REPO="${VERIF_REPO:-/repo}"
 export GOFLAGS=-mod=mod GOPROXY=off GOTOOLCHAIN=local GOSUMDB=off
 mkdir -p build out evidence lean/Interceptor/Audit lean/Interceptor/Gen
-cp /repo/go.sum harness/go.sum
+cp "$REPO/go.sum" harness/go.sum
 (cd harness && go1.26 test -c -tags verif -o ../build/harness.test ./corr && rm -f ../build/harness.test)
 (cd extract && go1.26 build -o ../build/extract .)
-for f in $(cat facts.list 2>/dev/null); do ./build/extract -repo /repo -fact "$f" -out "lean/Interceptor/Gen/$f.lean"; done
+for f in $(cat facts.list 2>/dev/null); do ./build/extract -repo "$REPO" -fact "$f" -out "lean/Interceptor/Gen/$f.lean"; done
 python3 genroot.py
 (cd lean && lake build driver && (lake build Interceptor || echo 'WARNING: some proof modules do not build; the affected checks will report it'))
 echo setup ok
